@@ -5,6 +5,7 @@ package simnet
 
 import (
 	"errors"
+	"fmt"
 	"os"
 	"io"
 	"math/rand"
@@ -24,6 +25,9 @@ const (
 	SegMSS               // fixed small segments (MSS field)
 	SegScript            // explicit list of segment sizes, then whole
 )
+
+// Debug enables wait-for diagnostics.
+var Debug = os.Getenv("VERIF_DEBUG") != ""
 
 var (
 	ErrReset  = errors.New("simnet: connection reset by peer")
@@ -177,6 +181,9 @@ func (c *Conn) Read(b []byte) (int, error) {
 			simrt.ParkTimeout(&p.rq, rem)
 			continue
 		}
+		if Debug {
+			simrt.SetNote(fmt.Sprintf("read conn %d server=%v inflight=%d fin=%v", c.ID, c.Server, len(p.inflight), p.fin))
+		}
 		simrt.Park(&p.rq)
 	}
 }
@@ -193,6 +200,7 @@ func (c *Conn) Write(b []byte) (int, error) {
 	}
 	c.wbusy = true
 	defer func() { c.wbusy = false; simrt.Wake(&c.wlq) }()
+
 	p := c.w
 	n := 0
 	for len(b) > 0 {
@@ -210,6 +218,9 @@ func (c *Conn) Write(b []byte) (int, error) {
 			space := p.cap - len(p.buf) - len(p.inflight)
 			if space <= 0 {
 				c.net.Stats.BlockedWrites++
+				if Debug {
+					simrt.SetNote(fmt.Sprintf("write conn %d server=%v blocked on full buffer", c.ID, c.Server))
+				}
 				simrt.Park(&p.wq)
 				continue
 			}
